@@ -310,39 +310,84 @@ def mergeTrees : Nat → List Tree → List Tree → List Tree
           | other => other) bs
       else mergeTrees fuel (a ++ [.frag ty ks]) bs
 
+/-- one property per field of a fragment-free selection list; `rec` is the recursive call for a
+sub-selection -/
+def expectedProps (rec : Str → List Tree → Option (List (List Shape))) (schema : Schema) (parent : Str) :
+    List Tree → Option (List Shape)
+  | [] => some []
+  | .field name args kids :: more =>
+    match schema.lookup parent name, expectedProps rec schema parent more with
+    | some e, some ps =>
+      match kids with
+      | none => some (.prop (responseKeyT name args) e.ty.shape none :: ps)
+      | some ks =>
+        match e.ty.inner with
+        | none => none
+        | some target =>
+          (rec target ks).map fun alts => .prop (responseKeyT name args) e.ty.shape (some alts) :: ps
+    | _, _ => none
+  | .frag .. :: more => expectedProps rec schema parent more
+
+/-- one group of alternatives per inline fragment: the fields outside the fragments merged with
+the fragment's -/
+def expectedFragAlts (rec : Str → List Tree → Option (List (List Shape))) (rest : List Tree) :
+    List Tree → Option (List (List Shape))
+  | [] => some []
+  | .frag ty ks :: more =>
+    match rec ty (mergeTrees 1000 rest ks), expectedFragAlts rec rest more with
+    | some a, some b => some (a ++ b)
+    | _, _ => none
+  | _ :: more => expectedFragAlts rec rest more
+
 /-- The alternatives the response object of a selection set can take, from the operation's
 selection tree and the schema: without inline fragments one alternative with one property per
 field; with inline fragments one alternative per fragment, holding the fields outside the
-fragments merged with the fragment's fields.  `none` for a field the schema table does not know. -/
+fragments merged with the fragment's fields.  `none` for a field the schema table does not know
+(or when `fuel` is less than the nesting depth). -/
 def expectedAlts (schema : Schema) : Nat → Str → List Tree → Option (List (List Shape))
   | 0, _, _ => none
   | fuel + 1, parent, sels =>
     let frags := sels.filter Tree.isFrag
     let rest := sels.filter (fun t => !t.isFrag)
-    let rec props (parent : Str) : List Tree → Option (List Shape)
-      | [] => some []
-      | .field name args kids :: more =>
-        match schema.lookup parent name, props parent more with
-        | some e, some ps =>
-          match kids with
-          | none => some (.prop (responseKeyT name args) e.ty.shape none :: ps)
-          | some ks =>
-            match e.ty.inner with
-            | none => none
-            | some target =>
-              (expectedAlts schema fuel target ks).map fun alts =>
-                .prop (responseKeyT name args) e.ty.shape (some alts) :: ps
-        | _, _ => none
-      | .frag .. :: more => props parent more
-    let rec fragAlts : List Tree → Option (List (List Shape))
-      | [] => some []
-      | .frag ty ks :: more =>
-        match expectedAlts schema fuel ty (mergeTrees 1000 rest ks), fragAlts more with
-        | some a, some b => some (a ++ b)
-        | _, _ => none
-      | _ :: more => fragAlts more
-    if frags.isEmpty then (props parent rest).map fun ps => [ps]
-    else fragAlts frags
+    if frags.isEmpty then (expectedProps (expectedAlts schema fuel) schema parent rest).map fun ps => [ps]
+    else expectedFragAlts (expectedAlts schema fuel) rest frags
+
+mutual
+/-- number of properties, all levels and alternatives -/
+def Shape.size : Shape → Nat
+  | .prop _ _ none => 1
+  | .prop _ _ (some alts) => 1 + Shape.sizeAlts alts
+def Shape.sizeProps : List Shape → Nat
+  | [] => 0
+  | p :: rest => p.size + Shape.sizeProps rest
+def Shape.sizeAlts : List (List Shape) → Nat
+  | [] => 0
+  | a :: rest => Shape.sizeProps a + Shape.sizeAlts rest
+end
+
+mutual
+/-- no inline fragment at a position the printers reach -/
+def Sel.fragFree : Sel → Bool
+  | .scalar .. => true
+  | .linked _ _ _ _ map => SelMap.fragFree map
+  | .clientObj .. => true
+  | .frag .. => false
+def SelMap.fragFree : SelMap → Bool
+  | [] => true
+  | (_, s) :: rest => s.fragFree && SelMap.fragFree rest
+end
+
+mutual
+/-- no empty selection map under a linked field the printers reach -/
+def Sel.noEmpty : Sel → Bool
+  | .scalar .. => true
+  | .linked _ _ _ _ map => !map.isEmpty && SelMap.noEmpty map
+  | .clientObj .. => true
+  | .frag _ map => !map.isEmpty && SelMap.noEmpty map
+def SelMap.noEmpty : SelMap → Bool
+  | [] => true
+  | (_, s) :: rest => s.noEmpty && SelMap.noEmpty rest
+end
 
 mutual
 def Tree.depth : Tree → Nat
